@@ -71,6 +71,20 @@ def hyps(*rels):
     """rels: (leading atom name, power, El)"""
     saved = dict(A.CTX.hyps)
     for name, k, poly in rels:
+        atom = A.CTX.atom(name)
+        cur = A.CTX.hyps.get(atom)
+        if cur is not None and cur[0] == 1:
+            # the atom is already fixed by a path condition (x := value): the stronger fact stays, and the relation is
+            # re-oriented on another atom after substituting it (|q| = 1 with s := 1 becomes x^2 + y^2 + z^2 = 0)
+            from core import _hyp_from_difference
+            d = A.deep_substitute(El.a(atom, k) - poly, {atom: cur[1]})
+            try:
+                h = _hyp_from_difference(d)
+            except Exception:
+                h = None
+            if h is not None and h[0] not in A.CTX.hyps:
+                A.CTX.hyps[h[0]] = (h[1], h[2])
+            continue
         A.add_hyp(name, k, poly)
     try:
         yield
